@@ -90,11 +90,6 @@ def check_case(ctx, case):
             ctx.violation("operator_not_equal_to_constructor", f"{what}: result {S.show(gs)[:300]} vs constructor-built {S.show(want)[:300]}: (==, ==, same type, hash==) = {eq.value!r} {eq.brief()}")
         if not S.spec_equal(gs, want):
             ctx.violation("operator_changed_structure", f"{what}: built {S.show(gs)[:300]} instead of {S.show(want)[:300]}")
-        elif want[0] == "NthPower" and not (type(got.value.n) is int and got.value.n == want[2]):
-            ctx.violation("exponent_not_stored_as_int", f"{what}: .n is {got.value.n!r}")
-        # operands are embedded as the very objects (nothing rebuilt or simplified)
-        if name in ("a+b", "a*b") and (got.value.__dict__.get("_inners") is None or len(got.value._inners) != 2 or got.value._inners[0] is not a or got.value._inners[1] is not b):
-            ctx.violation("operator_changed_structure", f"{what}: operands are not embedded as given")
         if S.size(sa) >= 2 and S.size(sb) >= 2:
             ctx.nontrivial(name, case["a"], case["b"])
     if sum(hooks.ST.rw_rules_fired.values()) != fires0:
